@@ -88,3 +88,11 @@ Fixpoint trace (P : prog) (st : gstate) (n : Z) (h : list action) : list (Z * bo
 Definition zb_eqb (a b : Z * bool) : bool := (fst a =? fst b) && Bool.eqb (snd a) (snd b).
 Definition life_case (c : prog * list action * list (Z * bool)) : bool :=
   let '(P, h, obs) := c in list_eqb zb_eqb (trace P NotStarted 0 h) obs.
+
+(* ---- size rule: (max_memory_size, MAX_ARCHIVE_FILE_SIZE, declared size, bytes read, produced a result?)
+   for a regular, supported, visible text member "m.txt" whose extractor yields one result: the model's
+   member_results (exact comparisons  size > limit) against what the implementation did *)
+Definition size_case (T : R.tables) (NE : list str) (ARCHIVE : R.extractor) (c : Z * Z * Z * Z * bool) : bool :=
+  let '(mm, me, decl, dl, produced) := c in
+  let m := {| m_name := s "m.txt"; m_regular := true; m_declared := decl; m_datalen := dl; m_yields := 1 |} in
+  Nat.eqb (member_results T (fun _ => s "m.txt") (fun _ => None) NE ARCHIVE mm me m) (if produced then 1 else 0)%nat.
